@@ -59,6 +59,11 @@ def run_c03(ctx, tier=None, seed=None):
     env = {'VERIF_LINES': 'conv'}
     std_pipe(ctx, 'conv-si', 'fl,allsi', 'conv', 'si', env=env, tier=tier, seed=seed)
     std_pipe(ctx, 'conv-bases', 'fl', 'conv', 'others', env=env, tier=tier, seed=seed)
+    if (tier or ctx.tier) == 'thorough':
+        # exhaustive: all 2^32 f32 bit patterns for a rotating subset of (base set, unit) pairs; the
+        # harness filters with an f64 re-computation and sends flagged + 1/2^14 sampled patterns to the driver
+        std_pipe(ctx, 'sweep32', 'fl', 'sweep', '', env={'VERIF_SWEEP_UNITS': os.environ.get('VERIF_SWEEP_UNITS', '24')},
+                 tier=tier, seed=seed, release=True)
 
 
 spec('C03',
@@ -68,7 +73,10 @@ spec('C03',
           'specials (±0, ±1, 1±ulp, subnormal, max, ±inf, NaN), neighbours of coefficient/offset, seeded per-binade randoms; '
           'a case is non-trivial when the value is finite non-zero and coefficient, base factor or offset is not the identity; '
           'distinct = distinct case lines (hash set in the driver)',
-     trusted_base=['powi results are taken from the implementation (ConversionFactor::powi) and fed to the model: powi is a parameter'],
+     trusted_base=['the seven powi results of a line are taken from the implementation and fed to the model; separate `pow` lines check each of them '
+                   'bit-exactly against the model of exponentiation by squaring (Conv.flPowi) and against the exact rational power',
+                   'thorough tier, exhaustive f32 sweep: the in-harness f64 filter is a search aid; it is trusted not to hide a deviation beyond 85% of the '
+                   'tolerance (its own error is ~2^-51 relative); every flagged pattern and a systematic 1/16384 sample are judged by the Lean driver'],
      assumptions=['oracle bounds apply only when every intermediate of the taken branch is a normal number or an exact zero (the property’s own guard)'])
 
 
